@@ -222,6 +222,9 @@ type trace struct {
 	events []Event
 	baseID uint16
 	baseQ  dns.Question
+	client bool // a client's context (not a copy)
+	bound  bool // a context has been seen for it
+	wantID uint16
 }
 
 type caseRun struct {
@@ -230,7 +233,11 @@ type caseRun struct {
 	traces    map[*query_context.Context]*trace
 	order     []*trace
 	main      *trace
-	clientOpt *dns.OPT // the OPT object handed to Handle (direct mode)
+	clientOpts []*dns.OPT // the OPT objects handed to Handle (direct mode)
+	clients    []*trace
+	gatePos    int // pair cases: observer position at which both clients meet (behind the cache)
+	arrived    int
+	gate       chan struct{}
 	kinds     []string // abstract chain of the main sequence
 	seqKinds  map[string][]string
 	closers   []io.Closer
@@ -319,8 +326,10 @@ func (cs *caseRun) fresh(o *dns.OPT) bool {
 	if o == nil {
 		return true
 	}
-	if cs.clientOpt != nil && o == cs.clientOpt {
-		return false
+	for _, co := range cs.clientOpts {
+		if o == co {
+			return false
+		}
 	}
 	if c := cs.c.Opt; c != nil {
 		distinctive := c.Ver != 0 || (c.Size != 1200 && c.Size != 1220 && c.Size != 1232 && c.Size != 1280 && c.Size != 1400 && c.Size != 1452 && c.Size != 4096 && c.Size != 512)
@@ -340,17 +349,34 @@ func (cs *caseRun) traceFor(qCtx *query_context.Context, seq string, pos int) *t
 	if t, ok := cs.traces[qCtx]; ok {
 		return t
 	}
-	t := &trace{}
-	if len(cs.traces) == 0 {
-		// the client's context
-		t = cs.main
+	var t *trace
+	if seq == "main" && pos == 1 {
+		// a client's context: bind it to the pending client with this ID (else to the first unbound one)
+		id := qCtx.Q().Id
+		for _, ct := range cs.clients {
+			if !ct.bound && ct.wantID == id {
+				t = ct
+				break
+			}
+		}
+		if t == nil {
+			for _, ct := range cs.clients {
+				if !ct.bound {
+					t = ct
+					break
+				}
+			}
+		}
+	}
+	if t != nil {
+		t.bound = true
 		q := qCtx.Q()
-		t.baseID = q.Id
+		t.baseID = t.wantID
 		if len(q.Question) > 0 {
 			t.baseQ = q.Question[0]
 		}
-		// a malformed query that reached the chain keeps the Query line it already has
 	} else {
+		t = &trace{}
 		q := qCtx.Q()
 		t.baseID = q.Id
 		if len(q.Question) > 0 {
@@ -383,7 +409,21 @@ func (o *observer) Exec(ctx context.Context, qCtx *query_context.Context, next s
 	t := cs.traceFor(qCtx, o.seq, o.pos)
 	qobj := qCtx.Q()
 	t.events = append(t.events, Event{"ev": "Down", "pos": o.pos, "s": cs.snap(t, qCtx, qobj), "seq": o.seq})
+	var gate chan struct{}
+	if cs.c.Pair && t.client && o.seq == "main" && o.pos == cs.gatePos {
+		cs.arrived++
+		if cs.arrived == len(cs.clients) {
+			close(cs.gate)
+		}
+		gate = cs.gate
+	}
 	cs.mu.Unlock()
+	if gate != nil {
+		select { // both clients are behind the cache before either goes on
+		case <-gate:
+		case <-time.After(2 * time.Second):
+		}
+	}
 	err := next.ExecNext(ctx, qCtx)
 	cs.mu.Lock()
 	ev := Event{"ev": "Up", "pos": o.pos, "s": cs.snap(t, qCtx, qobj), "err": err != nil, "seq": o.seq}
@@ -730,7 +770,6 @@ func (b *builder) rule(n *Node, seqName string) (string, error) {
 			}
 			if n.Lazy {
 				time.Sleep(1200 * time.Millisecond) // the stored answer (TTL 1) expires, the entry stays
-				b.cs.gatePos = len(b.cs.seqKinds) // placeholder, fixed below
 			}
 		}
 		return t, nil
@@ -822,6 +861,9 @@ func (b *builder) sequence(nodes []Node, seqName string) (*sequence.Sequence, er
 		}
 		ra = append(ra, sequence.RuleArgs{Exec: ex})
 		kinds = append(kinds, nodes[i].Kind)
+		if seqName == "main" && nodes[i].Impl == "cache" && nodes[i].Lazy && b.cs.gatePos == 0 {
+			b.cs.gatePos = i + 2
+		}
 	}
 	ot := b.add("obs", &observer{cs: b.cs, seq: seqName, pos: len(nodes) + 1})
 	ra = append(ra, sequence.RuleArgs{Exec: ot})
@@ -1128,7 +1170,15 @@ func runCase(c *Case) (res Result) {
 	plugins := map[string]any{}
 	m := coremain.NewTestMosdnsWithPlugins(plugins)
 	b := &builder{cs: cs, plugins: plugins, m: m}
-	cs.main = &trace{}
+	ids := []uint16{c.ID}
+	if c.Pair {
+		ids = append(ids, c.ID^0x1111)
+	}
+	for _, id := range ids {
+		cs.clients = append(cs.clients, &trace{client: true, wantID: id})
+	}
+	cs.main = cs.clients[0]
+	cs.gate = make(chan struct{})
 	seq, err := b.sequence(c.Nodes, "main")
 	if err != nil {
 		res.Why = "setup: " + err.Error()
@@ -1138,38 +1188,73 @@ func runCase(c *Case) (res Result) {
 	res.Kinds = cs.kinds
 	h := server_handler.NewEntryHandler(server_handler.EntryHandlerOpts{Entry: seq, QueryTimeout: 4 * time.Second})
 
-	q := buildQuery(c)
-	wire, err := q.Pack()
-	if err != nil {
-		res.Why = "pack: " + err.Error()
-		return
+	type client struct {
+		wire      []byte
+		sent, ref *dns.Msg
+		replies   [][]byte
+		err       error
 	}
-	sent := new(dns.Msg)
-	if err := sent.Unpack(wire); err != nil {
-		res.Why = "unpack own query: " + err.Error()
-		return
+	cls := make([]*client, len(ids))
+	for i, id := range ids {
+		cc := *c
+		cc.ID = id
+		q := buildQuery(&cc)
+		wire, err := q.Pack()
+		if err != nil {
+			res.Why = "pack: " + err.Error()
+			return
+		}
+		cl := &client{wire: wire, sent: new(dns.Msg), ref: new(dns.Msg)}
+		if err := cl.sent.Unpack(wire); err != nil {
+			res.Why = "unpack own query: " + err.Error()
+			return
+		}
+		cl.ref.Unpack(wire)
+		if c.Mode == "direct" {
+			if _, o := countOpt(cl.sent.Extra); o != nil {
+				cs.clientOpts = append(cs.clientOpts, o)
+			}
+		}
+		cls[i] = cl
+		cs.clients[i].events = append(cs.clients[i].events, Event{"ev": "Query", "mal": c.Mal, "opt": optObj(c.Opt), "tr": c.Tr,
+			"chain": cs.kinds, "mode": c.Mode, "pair": c.Pair})
 	}
-	if c.Mode == "direct" {
-		_, cs.clientOpt = countOpt(sent.Extra)
+	cs.order = append(append([]*trace{}, cs.clients...), cs.order...)
+	var cwg sync.WaitGroup
+	for _, cl := range cls {
+		cwg.Add(1)
+		go func(cl *client) {
+			defer cwg.Done()
+			defer func() {
+				if p := recover(); p != nil {
+					cl.err = fmt.Errorf("panic: %v", p)
+				}
+			}()
+			cl.replies, cl.err = send(c.Mode, h, cl.wire, cl.sent, c.Tr)
+		}(cl)
 	}
-	cs.main.events = append(cs.main.events, Event{"ev": "Query", "mal": c.Mal, "opt": optObj(c.Opt), "tr": c.Tr,
-		"chain": cs.kinds, "mode": c.Mode})
-	cs.order = append([]*trace{cs.main}, cs.order...)
-	ref := new(dns.Msg)
-	ref.Unpack(wire)
-	replies, err := send(c.Mode, h, wire, sent, c.Tr)
-	if err != nil {
-		res.Why = "transport: " + err.Error()
-		return
+	cwg.Wait()
+	for _, cl := range cls {
+		if cl.err != nil {
+			if strings.HasPrefix(cl.err.Error(), "panic: ") {
+				res.Panic = cl.err.Error()
+			} else {
+				res.Why = "transport: " + cl.err.Error()
+			}
+			return
+		}
 	}
-	// let straggling branch goroutines (dual_selector / fallback copies) finish
+	// let straggling branch goroutines (dual_selector / fallback copies, lazy refresh) finish
 	time.Sleep(time.Duration(c.Settle) * time.Millisecond)
 	cs.mu.Lock()
-	if len(replies) == 0 {
-		cs.main.events = append(cs.main.events, Event{"ev": "NoReply"})
-	}
-	for _, rb := range replies {
-		cs.main.events = append(cs.main.events, cs.replyEvent(rb, ref))
+	for i, cl := range cls {
+		t := cs.clients[i]
+		if len(cl.replies) == 0 {
+			t.events = append(t.events, Event{"ev": "NoReply"})
+		}
+		for _, rb := range cl.replies {
+			t.events = append(t.events, cs.replyEvent(rb, cl.ref))
+		}
 	}
 	cs.mu.Unlock()
 	for _, ca := range cs.caches {
